@@ -509,6 +509,15 @@ class LaunchPeer(CtlPeer):
         if word == 'AUTHENTICATE':
             return ok()
         if word == 'TAKEOWNERSHIP':
+            if run.own_reject == 3 and not run.transient_done:
+                # fault: a transient error on the first attempt; Tor then announces its control listener again, which
+                # makes the library connect a second time
+                run.transient_done = True
+                self.sim.fault('takeownership-transient-error')
+                self.takeownership.append(551)
+                if run.proc is not None and run.proc.state == 'running':
+                    run.proc.script.append(('log', run.listener_line))
+                return err(551, 'Internal error')
             if run.own_reject == 1:
                 self.sim.probe('takeownership-rejected')
                 self.takeownership.append(510)
@@ -603,6 +612,7 @@ class LaunchRun(object):
         self.T = ch.pick([30, 5, 120], 'T')
         self.user_dir = ch.chance(1, 3, 'userdir')
         self.user_dir_pre = ch.chance(1, 2, 'predir') if self.user_dir else False
+        self.config_dir = (not self.user_dir) and ch.chance(1, 5, 'configdir')
         self.tcp = ch.chance(1, 4, 'tcpctl')
         self.socks_none = ch.chance(1, 6, 'socksnone')
         self.kill_on_stderr = not ch.chance(1, 4, 'nokill')
@@ -610,7 +620,8 @@ class LaunchRun(object):
         self.cookie_state = ['ok', 'missing', 'short'][ch.weighted([22, 1, 1], 'cookie')]
         self.refuse = ch.chance(1, 14, 'refuse')
         self.never_listen = ch.chance(1, 24, 'neverlisten')
-        self.own_reject = ch.weighted([8, 1, 1], 'ownreject')
+        self.own_reject = ch.weighted([8, 1, 1, 1], 'ownreject')
+        self.transient_done = False
         self.plan = list(PROGRESS_PLANS[ch.weighted([4, 4, 3, 1, 1], 'plan')])
         self.fast_bootstrap = ch.chance(1, 8, 'fastboot')
         self.timeout_mode = ch.weighted([5, 2], 'tmode')
@@ -632,7 +643,8 @@ class LaunchRun(object):
                b'Oct 03 00:00:00.000 [notice] Opening Socks listener on 127.0.0.1:9150\n'][:n_pre]
         where = '127.0.0.1:9051' if self.tcp else '/sim/data/control.socket'
         self.script = [('log', l) for l in pre]
-        self.script.append(('listener', ('Oct 03 00:00:00.000 [notice] Opening Control listener on %s\n' % where).encode('ascii')))
+        self.listener_line = ('Oct 03 00:00:00.000 [notice] Opening Control listener on %s\n' % where).encode('ascii')
+        self.script.append(('listener', self.listener_line))
         if ch.chance(1, 2, 'opened'):
             self.script.append(('log', ('Oct 03 00:00:00.000 [notice] Opened Control listener connection (ready) on %s\n' % where).encode('ascii')))
         if ch.chance(1, 5, 'listener2'):
@@ -769,7 +781,7 @@ class LaunchRun(object):
             names = sorted(os.listdir(self.root))
         except OSError:
             raise HarnessError('scratch root vanished')
-        return [n for n in names if n != 'userdata']
+        return [n for n in names if n not in ('userdata', 'cfgdata')]
 
     def check_dirs(self, when):
         left = self.temp_dirs()
@@ -778,6 +790,9 @@ class LaunchRun(object):
                       'temporary DataDirectory still exists %s: %r' % (when, left))
         if self.user_dir and not os.path.isdir(self.user_path):
             self.fail('C19.caller-directory-removed', 'the caller-supplied data directory no longer exists %s' % when)
+        if self.config_dir and not os.path.isfile(os.path.join(self.cfg_path, 'state')):
+            self.fail('C19.caller-directory-removed',
+                      'the directory the caller had put on the TorConfig it handed to launch() (DataDirectory) no longer exists %s' % when)
 
     # ------------------------------------------------------------------ workload
     def op_when_connected(self):
@@ -858,7 +873,12 @@ class LaunchRun(object):
                               'launch() succeeded at a moment when TAKEOWNERSHIP had not yet been written to the control '
                               'connection that reported 100%% (written so far: %r)' % (
                                   bytes(p.conn.transport.written).split(b'\r\n')[-6:],))
-            if len(self.peers) > 1:
+            mine = [p for p in self.peers if p.conn is not None and p.conn.proto is getattr(res, 'protocol', None)]
+            if len(mine) == 1 and 250 not in mine[0].takeownership:
+                self.fail('C19.success-on-connection-without-ownership',
+                          'launch() succeeded with a Tor whose control connection never had TAKEOWNERSHIP accepted (replies on it: %r; '
+                          '%d control connections were opened)' % (mine[0].takeownership, len(self.peers)))
+            if len(self.peers) > 1 + (1 if self.transient_done else 0):
                 self.fail('C19.more-than-one-control-connection',
                           'launch() succeeded having opened %d control connections to the one process (the log announced %s control '
                           'listeners)' % (len(self.peers), 'two' if self.second_listener_line else 'one'))
@@ -958,6 +978,18 @@ class LaunchRun(object):
                 os.mkdir(self.user_path, 0o700)
         else:
             sim.probe('temp-dir')
+        kw = {}
+        self.cfg_path = os.path.join(self.root, 'cfgdata')
+        if self.config_dir:
+            # the caller hands over its own TorConfig, on which a DataDirectory (with Tor state in it) is set
+            from txtorcon.torconfig import TorConfig
+            os.mkdir(self.cfg_path, 0o700)
+            with open(os.path.join(self.cfg_path, 'state'), 'w') as f:
+                f.write('# Tor state file\n')
+            cfg = TorConfig()
+            cfg.DataDirectory = self.cfg_path
+            kw['_tor_config'] = cfg
+            sim.probe('caller-config-with-data-directory')
         sim.reactor.spawn_hook = self.spawn
         sim.reactor.connect_policy = self.connect_policy
         sim.add_source(self.workload_actions)
@@ -973,7 +1005,7 @@ class LaunchRun(object):
                             socks_port=None if self.socks_none else 9150,
                             timeout=self.T,
                             tor_binary='/sim/tor',
-                            kill_on_stderr=self.kill_on_stderr)
+                            kill_on_stderr=self.kill_on_stderr, **kw)
         if not isinstance(d, defer.Deferred):
             self.fail('C19.no-deferred', 'launch() returned %r' % (d,))
         d.addCallbacks(self.guard(lambda res: self.on_result(self.launch, True, res)),
